@@ -3,6 +3,7 @@ package props
 import (
 	"bytes"
 	"fmt"
+	"math/big"
 	"reflect"
 	"sort"
 	"strings"
@@ -144,8 +145,9 @@ func c18Ctx(variant int) map[string]interface{} {
 		"st":   c18Struct{Name: "s", Items: c18Spare(2, 1), Tags: c18SpareStr("t2", "t1"), Meta: map[string]interface{}{"k": "v"}, Ptr: inner, priv: []int{1, 2}},
 		"pst":  &c18Struct{Name: "ps", Items: c18Spare("b", "a"), Tags: c18SpareStr("u2", "u1"), Meta: map[string]interface{}{"k": c18Spare(1)}, Ptr: inner},
 		"s":    "hello world", "n": 5, "pn": inner,
+		"bigi": big.NewInt(-5), "bigr": big.NewRat(-1, 3), "bigf": big.NewFloat(-2.5), "nums": map[string]interface{}{"debt": big.NewInt(-7), "rate": big.NewRat(-3, 4)},
 		"lazy": map[string]interface{}{"total": func() interface{} { return 42 }, "label": func() string { return "L" }, "both": func() (interface{}, error) { return "B", nil }, "list": []interface{}{func() interface{} { return 1 }}},
-		"buf": bytes.NewBufferString("buffered <fragment>"), "page": map[string]interface{}{"body": bytes.NewBufferString("page body")},
+		"buf":  bytes.NewBufferString("buffered <fragment>"), "page": map[string]interface{}{"body": bytes.NewBufferString("page body")},
 		"parts": []interface{}{bytes.NewBufferString("part one"), bytes.NewBufferString("part two"), "plain"}, "rdr": strings.NewReader("reader text"),
 		"pairs": map[string]interface{}{"hello": "Ann", "": "-", "o": "0", " ": "_"},
 		"spk":   map[string]interface{}{"": 1, " ": 2, "0": 3, "00": 4, "-1": 5, "k": c18Spare(1)},
@@ -271,7 +273,7 @@ func c18Snapshot(ctx map[string]interface{}) map[string]string {
 	return out
 }
 
-var c18Vars = []string{"xs", "ys", "empty", "ss", "is", "fs", "arr", "parr", "m", "m2", "tm", "tmi", "im", "mii", "yl", "ym", "ym.page", "yl[0]", "nest", "st.Items", "st.Tags", "pst.Items", "st.Meta", "pst.Meta.k", "pn.List", "m.list", "m.nested.k", "nest[0]", "s", "nl", "nm.l", "nm", "nl"}
+var c18Vars = []string{"bigi", "bigr", "bigf", "nums.debt", "nums.rate", "bigi", "nums.debt", "xs", "ys", "empty", "ss", "is", "fs", "arr", "parr", "m", "m2", "tm", "tmi", "im", "mii", "yl", "ym", "ym.page", "yl[0]", "nest", "st.Items", "st.Tags", "pst.Items", "st.Meta", "pst.Meta.k", "pn.List", "m.list", "m.nested.k", "nest[0]", "s", "nl", "nm.l", "nm", "nl"}
 var c18Filters = []string{"sort", "reverse", "merge(ys)", "merge(xs)", "merge(m2)", "merge([9, 8])", "merge({'z': 1})", "merge(%W)", "merge(%W)", "merge(%W)", "default(%W)", "replace(%W)", "slice(0, 2)|merge(%W)", "keys|merge(%W)", "merge(%W)|sort", "slice(1, 2)", "slice(0, 1)", "slice(-2)", "slice(1)", "keys", "default([1])", "first", "last", "length", "join(',')", "json_encode", "upper", "lower",
 	"capitalize", "title", "trim", "split(' ')", "replace('a', 'b')", "abs", "round", "number_format(1)", "escape", "raw", "striptags", "nl2br", "url_encode", "format(1)", "date('Y')", "spaceless", "count"}
 
